@@ -255,6 +255,8 @@ def gen_good(rng, depth, nulls=True, nkeys=None, owners=False):
         elif depth > 0 and r < 0.14:
             m = rng.choice([0, 1, 2, 3, 3])
             t[k] = [rng.choice(SCALARS_SET) for _ in range(m)]
+            if t[k] and rng.random() < 0.4:
+                t[k].insert(rng.randrange(len(t[k]) + 1), rng.choice(t[k]))      # a duplicate member
             sk.append(k)
         elif depth > 0 and r < 0.28:
             t[k], mk[k] = gen_map_list(rng, depth, nulls)
@@ -519,6 +521,13 @@ def deviations(t, live):
                 for x in lv[:2]:
                     rest = [y for y in lv if not y == x]
                     yield dev("set-lose", rest)
+                # same LENGTH as before: a duplicate copy replaced by a new member (every target member still present)
+                for i, x in enumerate(lv):
+                    if any(strict_eq(x, y) for y in lv[:i] + lv[i + 1:]):
+                        yield dev("set-duplicate-replaced", lv[:i] + [fresh] + lv[i + 1:])
+                        break
+                if lv:
+                    yield dev("set-member-replaced", [fresh] + lv[1:] if not any(y == lv[0] for y in lv[1:]) else lv + [fresh])
                 for i, x in enumerate(lv):
                     others = lv[:i] + lv[i + 1:]
                     if type(x) in (int, float) and x in (0, 1) and not any(y == x for y in others):
@@ -650,6 +659,16 @@ def unit_random(ctx: Ctx, n):
         yield kind, {"t": t, "a": a, "la": gen_la(rng, t, sent)}
 
 
+def shorter_lists(j):
+    """the document with the last element of every list of length >= 2 dropped (what an earlier pass, whose
+    inputs asked for shorter lists, would have recorded as last-applied)"""
+    if isinstance(j, dict):
+        return {k: shorter_lists(v) for k, v in j.items()}
+    if isinstance(j, list):
+        return [shorter_lists(v) for v in (j[:-1] if len(j) >= 2 else j)]
+    return j
+
+
 def check_unit_deviation(ctx: Ctx, t, live, la, desc, live2, cases, terms):
     """oracle: matching live + one deviation at a specified path => match=False"""
     obs = run_validate(t, live2, la)
@@ -715,6 +734,8 @@ def run_unit(ctx: Ctx, cases, terms):
         la = copy.deepcopy(sent) if i % 2 else None
         if L in t and la is None:
             la = copy.deepcopy(sent)
+        if i % 6 == 1:
+            la = shorter_lists(sent)        # recorded by an earlier pass whose lists were shorter
         base = run_validate(t, live, la)
         ctx.count(f"unit-dev-base:{base}")
         if base != "match":
@@ -996,17 +1017,17 @@ def run_flow_case(ctx: Ctx, case, cases, terms, oracle=True):
         # first a pass that finds the object in sync; then the object drifts (no generation bump: the cluster
         # stores what it is given) and the same function reconciles again, nothing reset in between
         cl.put(case["prime"], plural=PLURAL)
-        p0 = one_pass(fn, cl)
+        p0 = one_pass(fn, cl, case.get("inputs"))
         ctx.count("flow:prime:" + ("quiet" if not p0["mutations"] and p0["outcome"]["cls"] == "Ok" else "not-in-sync"))
         if p0["validate_args"]:
             case = dict(case)
             _TARGETS[json.dumps(case["body"])] = p0["validate_args"][0]["t"]
     cl.put(case["live"], plural=PLURAL)
-    p2 = one_pass(fn, cl)
+    p2 = one_pass(fn, cl, case.get("inputs"))
     p3 = None
     if case["policy"] in ("patch", "default") and p2["outcome"]["cls"] == "Retry" and \
             [m["method"] for m in p2["mutations"]] == ["PATCH"]:
-        p3 = one_pass(fn, cl)
+        p3 = one_pass(fn, cl, case.get("inputs"))
     ctx.count(f"flow:{case['policy']}:{p2['outcome']['cls']}")
     if not p2["validate_args"]:
         ctx.count("flow:no-validate-call")
@@ -1083,7 +1104,7 @@ def materialise(body):
     return t
 
 
-def created_object(ctx, body, owned):
+def created_object(ctx, body, owned, inputs=None):
     """run the real create pass and return the stored object (with owner refs and annotation)"""
     import drivers
     drivers.reset_all()
@@ -1091,7 +1112,7 @@ def created_object(ctx, body, owned):
     if fn is None:
         return None
     cl = drivers.Cluster()
-    p1 = one_pass(fn, cl)
+    p1 = one_pass(fn, cl, inputs)
     if [m["method"] for m in p1["mutations"]] != ["POST"]:
         return None
     return stored(cl)
@@ -1120,10 +1141,40 @@ def fixed_flows(ctx: Ctx, cases, terms):
                           cases, terms)
 
 
+def grow_flows(ctx: Ctx, cases, terms):
+    """the target list GROWS between passes (the inputs change) while somebody else changed the live list to the
+    same new length; the last-applied annotation still records the earlier, shorter list"""
+    rng = ctx.rng
+    n = 6 if ctx.quick() else 60
+    for gi in range(n):
+        if gi % 2:
+            base = [rng.choice([80, 443, 8080, 22]) for _ in range(rng.choice([1, 2, 3]))]
+            wanted, foreign = 9000 + gi, 9999
+        else:
+            base = [{"port": rng.choice([80, 443]), "name": f"p{j}"} for j in range(rng.choice([1, 2]))]
+            wanted, foreign = {"port": 8080, "name": "new"}, {"port": 9999, "name": "new"}
+        body = {"spec": {"ports": "=inputs.ports", "mode": "x"}}
+        owned = bool(gi % 3)
+        obj = created_object(ctx, body, owned, {"ports": base})
+        if obj is None:
+            ctx.count("flow:grow-create-failed")
+            continue
+        live = copy.deepcopy(obj)
+        live["spec"]["ports"] = copy.deepcopy(base) + [foreign]
+        live.setdefault("metadata", {}).update({"uid": "uid-w1"})
+        for policy in ("patch", "recreate", "never"):
+            run_flow_case(ctx, {"kind": "flow", "body": body, "policy": policy, "delay": rng.choice([0, 4]), "owned": owned,
+                                "live": live, "inputs": {"ports": copy.deepcopy(base) + [wanted]},
+                                "dev": {"path": [["k", "spec"], ["k", "ports"], ["i", len(base)]], "kind": "list-element-vs-grown-target"}},
+                          cases, terms)
+            ctx.count("flow-dev:list-element-vs-grown-target")
+
+
 def run_flow(ctx: Ctx, cases, terms):
     rng = ctx.rng
     quick = ctx.quick()
     fixed_flows(ctx, cases, terms)
+    grow_flows(ctx, cases, terms)
     nbodies = 10 if quick else 80
     per_body = 14 if quick else 50
     for bi in range(nbodies):
